@@ -330,6 +330,23 @@ def cmp_forms(g):
     return [(op, a, b, t), (CMP_NEG[op], a, b, not t), (CMP_SWAP[op], b, a, t), (CMP_SWAP[CMP_NEG[op]], b, a, not t)]
 
 
+def tested_comparisons(g):
+    """The elementary comparisons (op, a, b) the predicate of guard g is made of - whichever way the edge goes:
+    a cmp guard is one; `(lo..hi).contains(&x)` is x >= lo and x < hi; `(lo..=hi).contains(&x)` is x >= lo and x <= hi."""
+    if g.kind != "bool":
+        return []
+    t = g.term
+    if t[0] == "cmp":
+        return [(t[1], t[2], t[3])]
+    if t[0] == "call" and t[1] and t[1].endswith("::contains") and len(t[2]) == 2:
+        r, x = strip_refs(t[2][0]), strip_refs(t[2][1])
+        if r[0] == "agg" and r[2] and r[2].endswith(("ops::Range", "ops::Range::Range")) and len(r[3]) == 2:
+            return [("Ge", x, r[3][0]), ("Lt", x, r[3][1])]
+        if r[0] == "call" and r[1] and r[1].endswith("RangeInclusive::new") and len(r[2]) >= 2:
+            return [("Ge", x, r[2][0]), ("Le", x, r[2][1])]
+    return []
+
+
 def g_cmp(op, truth, apred=None, bpred=None):
     """Guard predicate: the edge is taken exactly when `a op b` has the given truth value - however the test is written
     (a < b taken / !(a >= b) / b > a ...)."""
@@ -439,3 +456,64 @@ def g_try_ok(name, argpred=None):
         return argpred(x[2]) if argpred else True
 
     return pred
+
+
+def failure_edges(fn, call_block):
+    """Switch edges taken when the Result of the call in `call_block` is an Err - however it is consumed: `?` (Break of
+    Try::branch), a match arm on Err / on a particular error variant, .is_err() true, .is_ok() false.  Edges that test a
+    particular error variant are included (they are taken only for failures)."""
+    out = []
+    is_the_call = lambda q: q[0] == "call" and q[3] == call_block and q[1] and not q[1].endswith(("Try::branch", "Result::is_err", "Result::is_ok", "::map_err"))
+
+    def res_term(t):
+        """t is the call's Result itself (through map_err / references / a local holding it)"""
+        t = strip_refs(t)
+        while t[0] == "call" and t[1] and t[1].endswith("::map_err") and t[2]:
+            t = strip_refs(t[2][0])
+        return t[0] == "call" and is_the_call(t)
+    for (gb, gi, g) in all_guards(fn):
+        t = g.term
+        if g.kind == "variant":
+            if g.variant == "Err" and res_term(t):
+                out.append((gb, gi))
+            elif g.variant == "Break" and t[0] == "call" and t[1] and t[1].endswith("Try::branch") and res_term(t[2][0]):
+                out.append((gb, gi))
+            elif g.variant not in ("Ok", "Continue", "Some", "None", "Break", "Err") and t[0] == "place" and any(x in ("as:Err",) for x in t[2] if isinstance(x, str)) and res_term(t[1]):
+                out.append((gb, gi))     # a particular error variant of this call's Err payload
+        elif g.kind == "bool" and t[0] == "call" and t[1] and len(t[2]) == 1 and res_term(t[2][0]):
+            if (t[1].endswith("Result::is_err") and g.truth is True) or (t[1].endswith("Result::is_ok") and g.truth is False):
+                out.append((gb, gi))
+    return out
+
+
+def resolve_variant_temps(fn, starts, cut=(), stop_blocks=()):
+    """Like resolve_bool_temps for enum-typed locals that carry a decision from one match to a later one
+    (`let next = match .. { Ok(n) => Some(n), Err(EndOfFile) => None }; ..; match next { Some(n) => .., None => break }`):
+    within the region reachable from `starts` (not passing `stop_blocks`), when every reachable definition of the local is
+    an aggregate of one variant, the later tests of that local can only take that variant's edge.  Returns the cut list."""
+    cut = list(cut)
+    for _round in range(6):
+        rs = fn.reach(list(starts), cut_edges=cut, cut_blocks=list(stop_blocks))
+        grew = False
+        for (gb, gi, g) in all_guards(fn):
+            t_ = strip_refs(g.term)
+            if g.kind not in ("variant", "variants") or t_[0] != "var" or gb not in rs or (gb, gi) in cut:
+                continue
+            vs = set()
+            for d in fn.defs().get(t_[1], []):
+                if d[1] not in rs:
+                    continue
+                if d[0] == "assign":
+                    dv = strip_refs(fn.term_of_rvalue(d[3], d[1]))
+                    vs.add(dv[2].split("::")[-1] if dv[0] == "agg" and dv[2] else None)
+                else:
+                    vs.add(None)
+            if len(vs) == 1 and None not in vs:
+                only = next(iter(vs))
+                admits = (g.variant == only) if g.kind == "variant" else (only in tuple(g.variant))
+                if not admits:
+                    cut.append((gb, gi))
+                    grew = True
+        if not grew:
+            break
+    return cut
